@@ -158,8 +158,8 @@ def fanin_close_stress(chk, tier):
     inst = dict(name="FANIN", max=2, bufsize=2, procs=procs, edges=edges, debuglog=True)
     def one(k):
         return fc.real_runs(inst, [dict(env={}, bufsize=2, timeout=20)])[0]
-    n = 600 if tier == "thorough" else 240
-    bad = [rr for rr in pmap(one, range(n), workers=12) if rr.panic or rr.rc != 0 or not rr.completed or "o/m.out_1.txt" not in rr.snapshot]
+    n = 2400 if tier == "thorough" else 800
+    bad = [rr for rr in pmap(one, range(n), workers=16) if rr.panic or rr.rc != 0 or not rr.completed or "o/m.out_1.txt" not in rr.snapshot]
     chk.evaluations += n
     if bad:
         rr = bad[0]
